@@ -130,6 +130,55 @@ Theorem C12_fp_tmap_within_one : forall (rate : b64) (t : tmap) (q : Z), (2 <= l
 Proof. exact fp_tmap_within_one. Qed.
 Print Assumptions C12_fp_tmap_within_one.
 
+(* ---- the same WITHOUT the exactness guards: the three differences are any int64 values (their
+   conversion to double may round: five roundings in all, relative error at most 6 * 2^-53); the only
+   magnitude guard left is on the exact offset, 2^49 (6 days of ticks).  Still: no fault, at most one
+   from the exact model, less than one from the exact rational value, exact at integers. ---- *)
+Theorem C12_fp_binary64_general : forall dk ds dt : Z,
+  Z.abs dk <= 2 ^ 63 -> Z.abs ds <= 2 ^ 63 -> Z.abs dt <= 2 ^ 63 -> ds <> 0 ->
+  Z.abs (dk * dt) <= 2 ^ 49 * Z.abs ds ->
+  exists kf : Z,
+    fp_interp_k dk ds dt = TmOk kf /\
+    -1 <= kf - interp_k dk ds dt <= 1 /\
+    (Qabs (inject_Z kf - inject_Z dk * (inject_Z dt / inject_Z ds)) < 1)%Q /\
+    (forall n : Z, dk * dt = n * ds -> kf = n /\ interp_k dk ds dt = n).
+Proof. exact fp_interp_k_general. Qed.
+Print Assumptions C12_fp_binary64_general.
+
+Theorem C12_fp_tmap_within_one_general : forall (rate : b64) (t : tmap) (q : Z), (2 <= length (tm_entries t))%nat ->
+  ((forall c, search (ids t) q = TmOk c ->
+      in64 (q - nth c (ids t) 0) = true /\
+      in64 (nth (S c) (ids t) 0 - nth c (ids t) 0) = true /\
+      in64 (nth (S c) (times t) 0 - nth c (times t) 0) = true /\
+      Z.abs ((q - nth c (ids t) 0) * (nth (S c) (times t) 0 - nth c (times t) 0)) <= 2 ^ 49 * Z.abs (nth (S c) (ids t) 0 - nth c (ids t) 0) /\
+      Z.abs (nth c (times t) 0) <= 2 ^ 62) ->
+   exists v v' : Z, tmap_sample_id_to_timestamp t q = QVal v /\
+     fp_tmap_sample_id_to_timestamp rate t q = QVal v' /\ -1 <= v' - v <= 1) /\
+  ((forall c, search (times t) q = TmOk c ->
+      in64 (q - nth c (times t) 0) = true /\
+      in64 (nth (S c) (times t) 0 - nth c (times t) 0) = true /\
+      in64 (nth (S c) (ids t) 0 - nth c (ids t) 0) = true /\
+      Z.abs ((q - nth c (times t) 0) * (nth (S c) (ids t) 0 - nth c (ids t) 0)) <= 2 ^ 49 * Z.abs (nth (S c) (times t) 0 - nth c (times t) 0) /\
+      Z.abs (nth c (ids t) 0) <= 2 ^ 62) ->
+   exists v v' : Z, tmap_timestamp_to_sample_id t q = QVal v /\
+     fp_tmap_timestamp_to_sample_id rate t q = QVal v' /\ -1 <= v' - v <= 1).
+Proof. exact fp_tmap_within_one_general. Qed.
+Print Assumptions C12_fp_tmap_within_one_general.
+
+(* a segment whose time difference 2^60 + 12345 is not a double: the general guard holds, the exactness
+   guard does not; values computed by the binary64 model and by the exact model *)
+Example C12_fp_example_general :
+  let xs := [0; 2 ^ 40] in let ys := [5; 5 + 2 ^ 60 + 12345] in
+  (in64 (1000003 - nth 0 xs 0) = true /\ in64 (nth 1 xs 0 - nth 0 xs 0) = true /\ in64 (nth 1 ys 0 - nth 0 ys 0) = true /\
+   Z.abs ((1000003 - nth 0 xs 0) * (nth 1 ys 0 - nth 0 ys 0)) <= 2 ^ 49 * Z.abs (nth 1 xs 0 - nth 0 xs 0) /\
+   Z.abs (nth 0 ys 0) <= 2 ^ 62) /\
+  ~ (Z.abs (1000003 - nth 0 xs 0) <= 2 ^ 53 /\ Z.abs (nth 1 xs 0 - nth 0 xs 0) <= 2 ^ 53 /\ Z.abs (nth 1 ys 0 - nth 0 ys 0) <= 2 ^ 53 /\
+     Z.abs ((1000003 - nth 0 xs 0) * (nth 1 ys 0 - nth 0 ys 0)) <= 2 ^ 51 * Z.abs (nth 1 xs 0 - nth 0 xs 0) /\
+     Z.abs (nth 0 ys 0) <= 2 ^ 62) /\
+  fp_interp_at xs ys 0 1000003 = TmOk (5 + 1048579145728) /\ interp_at xs ys 0 1000003 = TmOk (5 + 1048579145728).
+Proof. exact fp_ex_general. Qed.
+Print Assumptions C12_fp_example_general.
+
 (* "to within one time tick of the exact value", for the binary64 C: on the segment c the property
    prescribes (x[c] <= q unless c is the first segment, q < x[c+1] unless c is the last), under the
    same guard, the returned time is LESS THAN ONE tick from the exact rational value
@@ -508,6 +557,22 @@ Example C20_fp_b64_example_hyps :
 Proof. exact b64_stats_example_hyps. Qed.
 Print Assumptions C20_fp_b64_example_hyps.
 
+(* ---- the second pass of jls_statistics_compute_f64 (s = sum of (x[i] - v_mean)^2, v_mean = the
+   binary64 mean of the first pass): the error is RELATIVE to the exact sum of squared deviations
+   (a sum of non-negative terms does not cancel), plus second-order terms:
+     |s_fp - s| <= (n + 4) 2^-53 s + 2 n ((n + 3) 2^-53 M)^2 + 2 n 2^-1075
+   for n + 4 <= 2^26 doubles of magnitude at most M >= 2^-1022.  (Contrast with the one-pass update of
+   jls_statistics_add above, whose worst-case bound is absolute, of order n^2 2^-53 M^2.) ---- *)
+Theorem C20_fp_compute_s_error : forall (M : R) (xs : list R), bpow radix2 (-1022) <= M -> xs <> [] ->
+  Forall (fun x => generic_format radix2 (FLT_exp (-1074) 53) x /\ Rabs x <= M) xs ->
+  (Z.of_nat (length xs) + 4 <= 2 ^ 26)%Z ->
+  let n := INR (length xs) in
+  let s := rsum (map (fun x => (x - rsum xs / n) * (x - rsum xs / n)) xs) in
+  Rabs (fp_ssq2 xs - s) <=
+    (n + 4) * u64 * s + 2 * n * (((n + 3) * u64 * M) * ((n + 3) * u64 * M)) + 2 * n * bpow radix2 (-1075).
+Proof. exact fp_ssq2_error. Qed.
+Print Assumptions C20_fp_compute_s_error.
+
 (* ====================================================================================== *)
 (* C02 - "up to the precision of the stored summaries"                                     *)
 (* ====================================================================================== *)
@@ -561,3 +626,40 @@ Example C02_fp_level1_example :
   Forall (fun x => generic_format radix2 (FLT_exp (-1074) 53) (Q2R x) /\ Rabs (Q2R x) <= 11) xs.
 Proof. exact fp_level1_example. Qed.
 Print Assumptions C02_fp_level1_example.
+
+(* the VARIANCE of a level-1 entry as the C computes it in binary64 (two passes over the entry's d
+   samples, then v_var /= count), against the exact population variance v of Properties_C02.summary_exact:
+     |var_fp - v| <= (d + 6) 2^-53 v + 3 ((d + 3) 2^-53 M)^2 + 4 * 2^-1075
+   i.e. relative to v up to second-order terms.  What the file holds is (float) sqrt(var_fp) (or the
+   double sqrt(var_fp)): the correctly rounded square root and the cast add relative 2^-53 and 2^-24;
+   that last step is NOT composed here (SummQ keeps sqrt symbolic as well). *)
+Theorem C02_fp_level1_var_partial : forall (d sumdf : nat) (xs : list Q) (k : nat) (e : sq_ent) (M : R),
+  (1 <= d)%nat -> (1 <= sumdf)%nat -> (Z.of_nat d + 4 <= 2 ^ 26)%Z ->
+  stats_in_range dbl_max xs ->
+  bpow radix2 (-1022) <= M ->
+  Forall (fun x => generic_format radix2 (FLT_exp (-1074) 53) (Q2R x) /\ Rabs (Q2R x) <= M) xs ->
+  nth_error (sq_levels d sumdf (map Some xs) 1) k = Some e ->
+  let w := firstn d (skipn (k * d) xs) in
+  exists v : Q, se_var e = Some v /\ (v == ssq_of w / qlen w)%Q /\
+    Rabs (fp_var1 (map Q2R w) - Q2R v) <=
+      (INR d + 6) * u64 * Q2R v + 3 * (((INR d + 3) * u64 * M) * ((INR d + 3) * u64 * M)) + 4 * bpow radix2 (-1075).
+Proof. exact fp_level1_var. Qed.
+Print Assumptions C02_fp_level1_var_partial.
+
+(* min and max of a level-1 entry are samples (no arithmetic): stored exactly in a 64-bit entry, within
+   2^-24 relative (+ 2^-150) in a 32-bit entry, and the stored min is not above the stored max *)
+Theorem C02_fp_level1_minmax : forall (d sumdf : nat) (xs : list Q) (k : nat) (e : sq_ent),
+  (1 <= d)%nat -> (1 <= sumdf)%nat -> stats_in_range dbl_max xs ->
+  nth_error (sq_levels d sumdf (map Some xs) 1) k = Some e ->
+  let w := firstn d (skipn (k * d) xs) in
+  exists lo hi : Q, se_min e = Some lo /\ se_max e = Some hi /\ (lo == min_of w)%Q /\ (hi == max_of w)%Q /\
+    Rabs (RN32 (Q2R lo) - Q2R lo) <= u32 * Rabs (Q2R lo) + eta32 /\
+    Rabs (RN32 (Q2R hi) - Q2R hi) <= u32 * Rabs (Q2R hi) + eta32 /\
+    RN32 (Q2R lo) <= RN32 (Q2R hi).
+Proof. exact fp_level1_minmax_f32. Qed.
+Print Assumptions C02_fp_level1_minmax.
+
+(* float samples: a value that is a binary32 number is stored unchanged *)
+Theorem C02_f32_store_exact : forall x : R, generic_format radix2 (FLT_exp (-149) 24) x -> RN32 x = x.
+Proof. exact f32_store_exact. Qed.
+Print Assumptions C02_f32_store_exact.
